@@ -20,9 +20,11 @@ PROFILES = {
                    fault_kinds=["crash"], max_trials=25)), ],
     "C04": [(6, _p(world="mem", kinds=["hb_promotion", "hb_promotion", "hb_pasha", "hb_cost_promotion", "hb_rush_promotion"],
                    p_fault_free=0.6, p_not_honour=0.15, p_no_maxres=0.3, p_ties=0.15, fault_kinds=["crash"], p_nodelay_false=0.05)), ],
-    "C05": [(6, _p(world="mem", kinds=["sync_hb", "sync_hb", "sync_hb_custom", "sync_hb_custom", "dehb"], p_fault_free=0.4,
+    "C05": [(6, _p(world="mem", kinds=["sync_hb", "sync_hb", "sync_hb_custom", "sync_hb_custom", "dehb"], p_fault_free=0.4, p_nan_metric_sync=0.25,
                    fault_kinds=["crash"], p_ties=0.15, p_tiny_space=0.2, p_nodelay_false=0.05)), ],
-    "C06": [(6, _p(world="mem", kinds=MF, p_tiny_space=0.35, p_pte=0.7, p_fault_free=0.5)), ],
+    "C06": [(6, _p(world="mem", kinds=MF, p_tiny_space=0.35, p_pte=0.7, p_fault_free=0.5, p_restrict=0.25, p_nan_metric=0.3)),
+            (1, _p(world="mem", kinds=["fifo_bo", "fifo_bo", "hb_promotion_bo", "hb_stopping_bo"], p_tiny_space=0.8, p_pte=0.7, p_fault_free=0.5,
+                   fault_kinds=["crash"], p_restrict=0.3, p_nan_metric=0.6, max_trials=14)), ],
     "C18": [(5, _p(world="local", kinds=MF, p_payload=0.8, p_rejects=0.5, p_noise=0.8, p_extra=0.5, max_trials=10)),
             (3, _p(world="mem", kinds=MF, p_payload=0.8, p_rejects=0.5, p_noise=0.8, p_extra=0.5)), ],
     "C19": [(6, _p(world="mem", kinds=["moasha"], p_fault_free=0.7, p_ties=0.3, fault_kinds=["crash"])), ],
@@ -30,10 +32,10 @@ PROFILES = {
                    p_fault_free=0.5, fault_kinds=["crash"], p_no_ckpt_script=0.4, max_trials=12, p_nodelay_false=0.05)), ],
     "C20": [(6, _p(world="mem", kinds=["hb_promotion", "hb_pasha", "hb_cost_promotion", "hb_rush_promotion", "sync_hb", "sync_hb_custom",
                                        "dehb", "pbt", "pbt"], p_delete_ckpt=0.8, p_fault_free=0.6, fault_kinds=["crash"],
-                   p_no_ckpt_script=0.1, p_nodelay_false=0.05)),
+                   p_no_ckpt_script=0.1, p_nodelay_false=0.05, p_nan_metric_sync=0.4)),
             (3, _p(world="local", kinds=["hb_promotion", "hb_pasha", "hb_cost_promotion", "hb_rush_promotion", "sync_hb", "sync_hb_custom",
                                          "dehb", "pbt", "pbt"], p_delete_ckpt=0.8, p_fault_free=0.6, fault_kinds=["crash"],
-                   p_no_ckpt_script=0.1, p_nodelay_false=0.05, p_async_stop=0.0)), ],
+                   p_no_ckpt_script=0.1, p_nodelay_false=0.05, p_async_stop=0.0, p_nan_metric_sync=0.4)), ],
     "C10": [(6, _p(world="sim", kinds=MF_SIM, p_fault_free=0.7, fault_kinds=["crash"], p_latency=0.6)), ],
     "C12": [(6, _p(world="mem", kinds=MF, p_noreport=0.08, p_callback_raise=0.2, p_wait=0.4,
                    stop_fields=["max_num_trials_started", "max_num_trials_finished", "max_num_trials_completed",
@@ -77,7 +79,8 @@ SPEC_BUILDERS = {"C16": lambda seed, n, tier: _c16_specs(seed, n, tier)}
 DRIVERS = {"C11": "c11", "C15": "c15"}  # property -> driver module name (twin / paired / crash-restart checks)
 MF_SEEDED = [k for k in MF if k != "moasha"]
 PROFILES.update({
-    "C11": [(6, _p(world="mem", kinds=MF_SEEDED, p_fault_free=0.5, p_latency=0.5, p_nodelay_false=0.03)),
+    "C11": [(6, _p(world="mem", kinds=MF_SEEDED, p_fault_free=0.5, p_latency=0.5, p_nodelay_false=0.03, p_restrict=0.35, p_tiny_space=0.4,
+                   p_allow_dup=0.15)),
             (2, _p(world="sim", kinds=[k for k in MF_SEEDED if k != "pbt"], p_fault_free=0.6, fault_kinds=["crash"], sim_fixed_seed=True,
                    p_nodelay_false=0.03)),
             (1, _p(world="mem", kinds=["fifo_bo", "hb_stopping_bo", "hb_promotion_bo", "hb_hypertune", "sync_hb_bo"], max_trials=8,
@@ -91,10 +94,13 @@ PROFILES.update({
 FRESH = {"C11": {"hashseed": "5"}}
 PROFILES["C16"] = [
     (6, _p(world="mem", kinds=[k for k in MF if k != "moasha"] + ["fifo_random", "fifo_grid", "hb_stopping", "hb_promotion"],
-           p_fault_free=0.5, fault_kinds=["crash"], p_nodelay_false=0.0, max_trials=8, p_latency=0.3, p_tiny_space=0.3, p_pte=0.6,
-           p_early_removal=0.0)),
+           p_fault_free=0.4, fault_kinds=["crash"], p_nodelay_false=0.0, max_trials=8, p_latency=0.3, p_tiny_space=0.4, p_pte=0.6,
+           p_early_removal=0.0, p_allow_dup=0.3, p_restrict=0.2)),
     (1, _p(world="mem", kinds=["fifo_bo", "hb_promotion_bo", "hb_stopping_bo"], p_fault_free=0.7, fault_kinds=["crash"], p_nodelay_false=0.0,
            max_trials=6)),
+    # searcher options off the default path: duplicates allowed (failed configurations stay blacklisted), tiny finite spaces, failures
+    (2, _p(world="mem", kinds=["fifo_random", "hb_stopping", "hb_promotion", "median", "sync_hb"], p_fault_free=0.0, fault_kinds=["crash"],
+           p_nodelay_false=0.0, max_trials=14, p_tiny_space=1.0, p_allow_dup=1.0, p_early_removal=0.0, p_pte=0.3)),
 ]
 DRIVERS["C16"] = "c16"
 
@@ -108,7 +114,7 @@ def _c16_specs(seed, n, tier):
 BUDGET = {
     # property: (quick_n, quick_budget_s, thorough_n, thorough_budget_s)
     "default": (2500, 100, 60000, 1200),
-    "C14": (700, 110, 15000, 1500),
+    "C14": (2500, 150, 40000, 1500),
     "C16": (14, 150, 400, 1800),   # number of *scenarios*; each is expanded into H+1 restart points x modes
     "C11": (1500, 150, 40000, 1500),
     "C15": (2000, 120, 60000, 1200),
